@@ -490,7 +490,7 @@ func (s *Scanner) Scan() SyntaxKind {
 				s.token = SK_ExclamationExclamation
 				return s.token
 			}
-			if tar := s.peekEqual(1, '.'); tar >= 0 {
+			if tar := s.peekEqual(1, '.'); tar >= 0 && s.peekCheck(2, IsDigit) < 0 {
 				s.pos = tar
 				s.token = SK_ExclamationDot
 				return s.token
